@@ -16,12 +16,19 @@ THEOREMS = [
     ('EAO.Properties.C01', 'EAO.C01.nodal_balance_split', 'the concatenated solution satisfies nodal balance at the original steps'),
     ('EAO.Properties.C04', 'EAO.C04.value_accounting_split', 'value accounting interval by interval'),
 ] + SP.THEOREMS_C14_SPLIT + SP.THEOREMS_C14_LE
-PARTIAL = ['the relation to the UNSPLIT problem is decided by per-instance certificates, not by a theorem about the builders: split = unsplit (value and dispatch) by theorem split_equals_unsplit(_bool) under the decidable witness splitWitness, split <= unsplit (and: the concatenated split solution satisfies every row and bound of the unsplit problem) by split_solution_le_unsplit(C)(_bool) under splitLeWitness(C) with exact row-implication multipliers; the driver evaluates the witnesses EXACTLY on the real unsplit problem and the real interval problems of every case of the uncoupled resp. storage streams (a false witness there is reported as a broken tie). Outside the certificates, on the numerical oracle only: cases in which the unsplit problem needs the two-variable form of a contract and an interval gets by with one variable (different variable sets, no matching), and storages with holding costs whose float cost vectors differ from an exact multiple of the end-level rows by rounding noise']
+PARTIAL = ['the relation to the UNSPLIT problem is decided by per-instance certificates, not by a theorem about the builders: split = unsplit (value and dispatch) by theorem split_equals_unsplit(_bool) under the decidable witness splitWitness, split <= unsplit (and: the concatenated split solution satisfies every row and bound of the unsplit problem) by split_solution_le_unsplit(C)(_bool) under splitLeWitness(C) with exact row-implication multipliers; the driver evaluates the witnesses EXACTLY on the real unsplit problem and the real interval problems of every case of the uncoupled resp. storage streams (a false witness there is reported as a broken tie). Outside the certificates, on the numerical oracle only: cases in which the unsplit problem needs the two-variable form of a contract and an interval gets by with one variable (different variable sets, no matching), and storages with holding costs whose float cost vectors differ from an exact multiple of the end-level rows by rounding noise. The shortcut io.optimize and the DataFrame form of the price data are covered by the numerical / exact-comparison oracles on the real code only (no model of io.optimize or of Timegrid.prices_to_grid is involved in C14); of the shortcut result the value, the steps and the columns of the dispatch table are compared with the direct split path, not the dispatch numbers (degenerate optima)']
 COMPONENTS = ['per-interval assemble on captured asset problems vs the interval problems of setup_split_optim_problem', 'index shift / original step numbers of the joint mapping', 'split-witness: exact evaluation of splitWitness (unsplit real problem renamed along the matching of the variables = block sum of the real interval problems)', 'split-le-witness: exact evaluation of splitLeWitness(C) (every unsplit row implied by interval rows with explicit multipliers found numerically)']
 RULE = ('random portfolios x interval sizes (aligned and not aligned with the horizon, incl. partial last interval); three streams: uncoupled assets only (value and dispatch equal to unsplit), storages with start=end level as only coupling (split <= unsplit, concatenated solution feasible for unsplit), anything (sum of interval optima, balance, limits, original steps); '
+        'in 6 of 10 cases of the uncoupled (outside its fixed-scale variant) and of the anything stream plants / CHPs WITH a fuel node are added whose fuel efficiency, fuel consumption when on / per start, conversion factor, heat share, start and running costs '
+        'are keys into the price data or interval dicts (comp.split.add_fuel_plants over gen.gen_plant and comp.history.vary_data_keys; uncoupled: LP plants and plants with on-variables only, nothing linking two steps; anything: minimum times, starts, ramps too); '
+        'every case: the unsplit reference is also set up with the price data as DataFrame on the grid (Timegrid.prices_to_grid or a frame built by the caller - the form every interval of the split set-up receives) and must be the identical problem; '
+        'the share with which a dispatch variable flows into a node (disp_factor: fuel per unit of power, transport efficiency, commodity factors) is compared between split and unsplit mapping variable by variable; '
+        'one case in three: the split optimisation is also run through the shortcut eaopack.io.optimize(portf, timegrid, data, split_interval_size) on a portfolio object used before on ANOTHER grid '
+        '(comp.history.grid_variants: shifted, shorter, longer, other zone / step / unit; use = grid set, set up, split set up, optimised with the shortcut, JSON round trip with the grid) - value, steps and columns of its dispatch table against the direct split path; '
         'non-trivial = at least 2 non-empty intervals and a non-zero value; distinct by scenario hash')
 ASSUMPTIONS = ['values compared with tolerance 2e-6 relative']
-EXPLANATION = 'block-sum theorems; oracle on the real code compares split with unsplit'
+EXPLANATION = ('block-sum theorems; oracle on the real code compares split with unsplit (the unsplit reference in both accepted forms of the price data: dict of arrays and DataFrame), '
+               'and the result of the documented shortcut io.optimize(..., split_interval_size) on a portfolio with a history on another grid with the direct split path')
 
 
 def scenarios(seed, tier):
@@ -61,6 +68,22 @@ def scenarios(seed, tier):
                                   allow_periodic=False, allow_freq=False, allow_wacc=True)
         else:
             s = gen.gen_portfolio(r2, tmax=12, tz_prob=0.1, allow_periodic=False, allow_freq=False)
+        # the widenings of round 5 draw from a generator of their own (the cases of the earlier rounds keep their data)
+        r3 = random.Random((seed * 7919 + 14) * 1000003 + i)
+        if stream == 'uncoupled' and i % 8 != 4 and r3.random() < 0.6:
+            # plants / CHPs with a FUEL node whose efficiency, fuel consumption, conversion factors are keys into the price data
+            # (or interval dicts); nothing of them links two steps (no ramps, minimum times, starts): LP plants and plants with
+            # 'on' variables only
+            SP.add_fuel_plants(r3, s, coupled=False)
+            s['fuel_plants'] = True
+        elif stream == 'any' and r3.random() < 0.6:
+            # the same with everything a plant can have (minimum times, starts, start fuel, ramps)
+            if r3.random() < 0.7:
+                SP.add_fuel_plants(r3, s, coupled=True)
+            else:
+                from ..comp import history as _H
+                _H.vary_data_keys(r3, s, True)
+            s['fuel_plants'] = True
         if r2.random() < 0.25:
             gen.make_late_start(s, r2)
         if stream == 'uncoupled' and i % 8 == 4:
@@ -86,6 +109,15 @@ def scenarios(seed, tier):
                     a['args']['block_size'] = iv
                     a['args'].pop('start', None)
                     a['args'].pop('end', None)
+        # the unsplit reference is also set up with the price data as DataFrame (the form every interval of the split set-up gets)
+        s['frame'] = r3.choice(['to_grid', 'frame'])
+        # one case in three: the split optimisation is ALSO run through the shortcut eaopack.io.optimize(..., split_interval_size)
+        # on a portfolio object that was used before on another grid (shifted / shorter / longer / other zone, step, unit)
+        if r3.random() < 0.34:
+            from ..comp import history as _H
+            var = _H.grid_variants(r3, s['grid'], 1)
+            if var:
+                s['shortcut'] = {'grid': var[0], 'use': r3.choice(['set', 'setup', 'setup', 'optimize', 'optimize', 'split', 'json'])}
         yield 'gen%d' % i, s
 
 
@@ -128,6 +160,17 @@ def run_case(scn, drv):
         return r
     interval = interval_of(scn, tg)
     feats.append('interval:' + interval)
+    if scn.get('fuel_plants'):
+        feats.append('fuel-plants:' + ('keyed' if SP.has_keyed_plant(scn) else 'unkeyed'))
+    # --- the unsplit reference does not depend on the FORM of the price data: a DataFrame on the grid (what every interval of the
+    #     split set-up is given) yields the same problem as the dict of arrays
+    if scn.get('frame') and scn.get('prices'):
+        d = SP.frame_check(scn, rec)
+        r['evaluated'] += 1
+        feats.append('frame:' + scn['frame'])
+        if d is not None:
+            viol('the unsplit problem set up with the price data as DataFrame (%s) differs from the one set up with a dict of arrays, so the split result cannot agree with both: %s'
+                 % (scn['frame'], d), what='prices_frame')
     try:
         rs = pf.setup_split(scn, interval)
     except Exception as e:
@@ -200,6 +243,21 @@ def run_case(scn, drv):
             d0 = [x for x in k0 if x not in set(k1)][:2]
             d1 = [x for x in k1 if x not in set(k0)][:2]
             viol('mapping rows of the split problem differ from the unsplit ones: only unsplit %s, only split %s' % (d0, d1), what='steps')
+        # per-asset limits on the original grid: the share of a variable that flows into a node (efficiency of a transport, fuel
+        # burnt per unit of power / when on / per start, factors of a multi-commodity contract) is the asset's own, step by step -
+        # the same in the split problem as in the unsplit one wherever both have the variable (asset, node, name, step)
+        f0, f1 = {}, {}
+        for fx, mm in ((f0, rec['op'].mapping), (f1, m)):
+            for a, n, t, v, s_, f in key_rows(mm):
+                if t == 'd':
+                    fx.setdefault((a, n, v, s_), []).append(f)
+        bad = [(k, sorted(f0[k]), sorted(f1[k])) for k in sorted(set(f0) & set(f1))
+               if len(f0[k]) == len(f1[k]) and any(abs(x - y) > 1e-9 * max(1.0, abs(x)) for x, y in zip(sorted(f0[k]), sorted(f1[k])))]
+        r['evaluated'] += 1
+        if bad:
+            k, x0, x1 = bad[0]
+            viol('asset %s, variable %s at step %d flows into node %s with factor %s in the split problem, %s in the unsplit problem (%d such rows)'
+                 % (k[0], k[2], k[3], k[1], x1, x0, len(bad)), what='factors')
     # --- certificate: the unsplit problem IS the block sum of the interval problems (hypothesis of EAO.C14.split_equals_unsplit)
     if scn['stream'] in ('uncoupled', 'blocks', 'storage', 'storage_ne') and len(rec['op'].c) <= 400:
         try:
@@ -235,6 +293,8 @@ def run_case(scn, drv):
         viol('optimising / reading the split problem raises %s (%s)' % (type(e).__name__, str(e)[:150]), what='raises', err=impl.err_class(e))
         return r
     r['evaluated'] += 1
+    if scn.get('shortcut'):
+        shortcut_oracle(scn, interval, rs, tg, r, viol)
     if isinstance(rs['res'], str):
         feats.append('split-unsolved')
         if not isinstance(rec['res'], str) and scn['stream'] == 'uncoupled':
@@ -303,6 +363,46 @@ def run_case(scn, drv):
     r['nontrivial'] = len(ops) >= 2 and abs(Vs) > 1e-9
     r['observed'] = {'split_value': Vs, 'unsplit_value': None if isinstance(rec['res'], str) else float(rec['res'].value), 'intervals': len(ops)}
     return r
+
+
+def shortcut_oracle(scn, interval, rs, tg, r, viol):
+    """what a user gets from `eaopack.io.optimize(portf, timegrid, data, split_interval_size=...)` on a portfolio object with a
+    history on another grid is the split result on the GIVEN grid: the value of the direct split path (= sum of the interval
+    optima) and a dispatch table whose steps are those of the given grid, with the columns of the direct path"""
+    feats = r['features']
+    sc = scn['shortcut']
+    feats.append('shortcut:%s:%s' % (sc['use'], sc['grid'].get('kind')))
+    r['evaluated'] += 1
+    try:
+        out, notes = SP.shortcut_split(scn, interval)
+    except Exception as e:
+        viol('the shortcut io.optimize(..., split_interval_size=%r) raises %s (%s) on a portfolio used before on another grid (%s) although the direct split path works'
+             % (interval, type(e).__name__, str(e)[:150], sc['use']), what='shortcut_raises', err=impl.err_class(e))
+        return
+    feats += ['shortcut-note:' + n for n in notes]
+    direct = rs.get('out')
+    if isinstance(rs['res'], str) or direct is None:
+        if out.get('dispatch') is not None:
+            viol('the direct split optimisation is not successful (%s) but the shortcut io.optimize returns a dispatch' % str(rs['res'])[:60], what='shortcut_status')
+        return
+    if out.get('dispatch') is None:
+        viol('the shortcut io.optimize(..., split_interval_size=%r) is not successful (%s) on a portfolio used before on another grid (%s), the direct split path is'
+             % (interval, str(out['summary'].get('status'))[:60], sc['use']), what='shortcut_status')
+        return
+    idx = out['dispatch'].index
+    if len(idx) != len(tg.timepoints) or not (idx == tg.timepoints).all():
+        viol('dispatch table of the shortcut io.optimize(..., split_interval_size=%r) on a portfolio used before on another grid (%s): %d steps from %s to %s, the given grid has %d from %s to %s'
+             % (interval, sc['use'], len(idx), idx[0] if len(idx) else None, idx[-1] if len(idx) else None, tg.T, tg.timepoints[0], tg.timepoints[-1]),
+             what='shortcut_steps')
+        return
+    Vd = float(rs['res'].value)
+    Vc = float(out['summary'].loc['value', 'Values'])
+    if abs(Vd - Vc) > 2e-6 * max(1.0, abs(Vd), abs(Vc)):
+        viol('value of the shortcut io.optimize(..., split_interval_size=%r) on a portfolio used before on another grid (%s) is %.8g, the direct split optimisation on the given grid gives %.8g'
+             % (interval, sc['use'], Vc, Vd), what='shortcut_value')
+    if list(out['dispatch'].columns) != list(direct['dispatch'].columns):
+        viol('dispatch table of the shortcut has the columns %s, that of the direct split path %s' % (list(out['dispatch'].columns)[:6], list(direct['dispatch'].columns)[:6]),
+             what='shortcut_columns')
 
 
 def transport(rs, rec):
